@@ -17,7 +17,7 @@ ASSUMPTIONS = ["gradient equivariance is compared on the simplex-tangent part an
 EVAL_COUNTER = "calls_monitored"
 REQUIRED = {"quick": {"calls_monitored": 1500, "rel:sample_perm": 1000, "rel:cluster_perm": 1000,
                       "rel:empty_cluster": 1000, "rel:grad_perm": 500, "bound:nonneg": 1500, "bound:constant_rows": 100,
-                      "bound:mi_logK": 20, "bound:le_one": 200, "closed_simplex_calls": 150},
+                      "bound:mi_logK": 20, "bound:le_one": 200, "closed_simplex_calls": 150, "onehot_dtype_compared": 300},
             "thorough": {"calls_monitored": 30000, "rel:grad_perm": 10000}}
 SHARD_TIMEOUT = {"quick": 900, "thorough": 5400}
 
@@ -130,7 +130,12 @@ class State:
         eps_ = float(gem.epsilon)
         unit_ = 1.0 if A is None else (float(np.sqrt(np.max(np.abs(A)))) if cname == "MMDGEMINI" else float(np.max(np.abs(A))))
         # (the chi-square distance between nearly disjoint clipped distributions is of order 1/epsilon itself: relative)
-        eps_slack = 16 * (K + 1) * eps_ * ((1 + math.log(1 / eps_) + math.log(max(N, 1))) * max(unit_, 1e-300) + (abs(v0) if dist == "chi2" else 0.0))
+        eps_lin = 4 * (K + 1) * eps_ * (max(unit_, 1e-300) + (abs(v0) if dist == "chi2" else 0.0))
+        eps_slack = 4 * eps_lin * (1 + math.log(1 / eps_) + math.log(max(N, 1)))
+        # sample-independent predictions stay sample-independent after clipping: every cluster-conditional is then the
+        # uniform distribution and KL, TV, MMD and Wasserstein vanish exactly; squared Hellinger and chi-square are written
+        # for rows that sum to one and move by the row-sum excess (K*epsilon, no logarithm)
+        const_slack = eps_lin if dist in ("hellinger", "chi2") else 0.0
         if eps_ > 1e-11:
             ctx.count("calls_with_user_epsilon")
         # bounds
@@ -151,7 +156,7 @@ class State:
         if N >= 1 and np.all(np.abs(P - P[0]) == 0) and zero_diag:
             ctx.count("bound:constant_rows")
             want = 0.5 if dist == "chi2" else 0.0
-            if abs(value - want) > tol + (eps_slack if closed else 0.0):
+            if abs(value - want) > tol + (const_slack if closed else 0.0):
                 ctx.violation("constant-rows", "constant-predictions-nonzero/" + mech,
                               observed={"score": value, "P": P}, expected=want, detail={"A": A, "tol": tol})
         if dist == "kl" and not gem.ovo and N % K == 0 and np.all((P == 0) | (P == 1)) and np.all(P.sum(1) == 1) \
@@ -294,6 +299,25 @@ def run_case(case, ctx, st):
             info["variant"] = variant
             ctx.case = {"kind": "direct", "seed": case["seed"], "i0": idx, "i1": idx + 1, "info": info}
             gem(P, A)
+            if variant in (1, 4) and np.all((P == 0) | (P == 1)):
+                # hard assignments handed over as what they are - an integer or boolean one-hot matrix: the same finite
+                # score as for the float matrix holding the same numbers
+                st.tap.enabled = False
+                try:
+                    v_float = _val(gem.evaluate(P.astype(float), A))
+                    for dt in (np.int64, bool):
+                        try:
+                            v_dt = _val(gem.evaluate(P.astype(dt), A))
+                        except Exception as e:
+                            v_dt = e
+                        ctx.count("onehot_dtype_compared")
+                        if isinstance(v_dt, Exception) or not (abs(v_dt - v_float) <= 1e-9 * max(1.0, abs(v_float))):
+                            ctx.violation("one-hot-dtype", "one-hot-score-depends-on-dtype/" + str(_gem.class_distance(gem)),
+                                          observed={"dtype": np.dtype(dt).name, "score": repr(v_dt)[:100], "P": P},
+                                          expected={"score_for_float_matrix": v_float})
+                            break
+                finally:
+                    st.tap.enabled = True
     else:
         rng = gen.rng_for(case["seed"], ID, "fit", case["i"])
         st.rng = gen.rng_for(case["seed"], ID, "monfit", case["i"])
